@@ -15,7 +15,7 @@
 EXTENDS Integers, Sequences, FiniteSets, TLC
 
 CONSTANTS Proto, Mux, Runner, MaxOps, LeakMainOnMux, LeakPluginBrokered
-Ops == {"dispense", "broker_h2p", "broker_p2h", "stdio"}
+Ops == {"dispense", "broker_h2p", "broker_p2h", "stdio", "accept_during_shutdown"}
 
 VARIABLES res, phase, nops, nb
 rv == <<res, phase, nops, nb>>
@@ -27,12 +27,15 @@ Start == /\ phase = "new" /\ phase' = "up"
                        \cup (IF Runner THEN {<<"socket_dir", "host", 0>>} ELSE {})
          /\ UNCHANGED <<nops, nb>>
 Op(o) == /\ phase = "up" /\ nops < MaxOps /\ nops' = nops + 1
-         /\ IF o \in {"broker_h2p", "broker_p2h"} /\ Proto = "grpc" /\ ~Mux
+         /\ (o = "accept_during_shutdown" => Proto = "grpc")
+         /\ IF o \in {"broker_h2p", "broker_p2h", "accept_during_shutdown"} /\ Proto = "grpc" /\ ~Mux
             THEN \* plain gRPC: the accepting side opens a listener with its own socket file
                  /\ nb' = nb + 1
-                 /\ res' = res \cup {<<"brokered_socket", IF o = "broker_h2p" THEN "plugin" ELSE "host", nb + 1>>,
-                                     <<"broker_goroutines", IF o = "broker_h2p" THEN "plugin" ELSE "host", nb + 1>>}
-            ELSE IF o \in {"broker_h2p", "broker_p2h"}
+                 \* (accept_during_shutdown: the plugin accepts one more id while handling the shutdown
+                 \* request; its ConnInfo reaches a host whose broker is already closed)
+                 /\ res' = res \cup {<<"brokered_socket", IF o = "broker_p2h" THEN "host" ELSE "plugin", nb + 1>>,
+                                     <<"broker_goroutines", IF o = "broker_p2h" THEN "host" ELSE "plugin", nb + 1>>}
+            ELSE IF o \in {"broker_h2p", "broker_p2h", "accept_during_shutdown"}
             THEN \* net/rpc and multiplexed gRPC: a stream over the existing connection, goroutines only
                  /\ nb' = nb + 1 /\ res' = res \cup {<<"broker_goroutines", "both", nb + 1>>}
             ELSE UNCHANGED <<res, nb>>
